@@ -21,7 +21,7 @@ CONSTANTS Period,      \* housekeeping period              1000
           Batch,       \* largest batch                      32
           RejoinMs,    \* reconnect bound after a repair  30000
           MaxL,
-          Check        \* which properties' clauses are asserted: a subset of {"C01", "C03", "C04", "C06", "C07", "C08", "C09", "C10", "C14", "C19", "C20"}
+          Check        \* which properties' clauses are asserted: a subset of {"C01", "C02", "C03", "C04", "C06", "C07", "C08", "C09", "C10", "C14", "C19", "C20"}
                        \* (the observer's own state always advances; each check names its property)
 
 Rec == ndJsonDeserialize(IOEnv.TRACE)
@@ -53,10 +53,12 @@ VARIABLES i,
           listed,    \* the uplinks the IP file currently lists (as applied)
           pendL, applyT,  \* a reloaded list waiting for the next housekeeping pass, and when that pass is (-1: none)
           refT,      \* time of the last refused reload (-1: none)
-          lastApply  \* when the last list came into force
+          lastApply, \* when the last list came into force
+          out        \* out[l]: the data sequence numbers that left from l's current socket and have not been retired by
+                     \*         what the receiver has sent since (C02, as far as the outside can tell)
 
 vars == <<i, n, timeout, profile, est, known, outst, hi, recent, routed, dups, port, conn, heard, kaT, downLo,
-          everUp, repaired, mode, modeT, ackT, kw, kwT, reg1L, reg1T, ansT, seen2, amn, failing, listed, pendL, applyT, refT, lastApply>>
+          everUp, repaired, mode, modeT, ackT, kw, kwT, reg1L, reg1T, ansT, seen2, amn, failing, listed, pendL, applyT, refT, lastApply, out>>
 
 Links == 1..MaxL
 Handshake == {"reg1", "reg2", "reg3", "reg_err", "reg_ngp"}
@@ -91,6 +93,7 @@ Fresh(r) ==
     /\ reg1L' = 0 /\ reg1T' = -1 /\ ansT' = -1 /\ seen2' = {} /\ amn' = [l \in Links |-> -1]
     /\ failing' = [l \in Links |-> FALSE]
     /\ listed' = (IF "listed" \in DOMAIN r THEN {r.listed[j] : j \in 1..Len(r.listed)} ELSE 1..r.n) /\ pendL' = {} /\ applyT' = -1 /\ refT' = -1 /\ lastApply' = 0
+    /\ out' = [l \in Links |-> {}]
 
 (* ---------------- the uplink direction (C01) ---------------- *)
 (* fold over the frames of one step, in the order the receiver socket delivered them *)
@@ -222,6 +225,34 @@ WindowChecks(r, l) ==
 Kw1(r, l)  == IF Kas(r, l) # <<>> THEN Kas(r, l)[Len(Kas(r, l))].kw ELSE IF Torn(r, l) THEN -1 ELSE kw[l]
 KwT1(r, l) == IF Kas(r, l) # <<>> THEN r.t ELSE IF Torn(r, l) THEN -1 ELSE kwT[l]
 
+(* ---- C02 from outside: each keepalive reports the link's in-flight count; the observer knows what left on each
+   socket and what the receiver has acknowledged since.  Frames of one step are taken in the order they were sent
+   (data frames and keepalives leave while time passes, i.e. before the answers this step delivers are processed);
+   a frame from a new source port means the link was reset in between. ---- *)
+AcctWire(r, acc, f) ==
+    LET o1 == IF f.port # acc.p[f.l] THEN [acc.o EXCEPT ![f.l] = {}] ELSE acc.o
+        a1 == [acc EXCEPT !.o = o1, !.p = [@ EXCEPT ![f.l] = f.port]]
+    IN IF f.cls = "data" /\ f.seq >= 0 THEN [a1 EXCEPT !.o = [@ EXCEPT ![f.l] = @ \cup {f.seq}]]
+       ELSE IF f.cls = "ka" /\ "ki" \in DOMAIN f /\ f.ki # -1
+            THEN [a1 EXCEPT !.ok = @ /\ (failing[f.l] \/ f.ki = Cardinality(o1[f.l]))]
+       ELSE a1
+FirstOther(o, s, skip) ==
+    LET H == {l \in Links : l # skip /\ s \in o[l]}
+    IN IF H = {} THEN 0 ELSE CHOOSE l \in H : \A m \in H : l <= m
+AckOne(o, l, s) == IF s \in o[l] THEN [o EXCEPT ![l] = @ \ {s}]
+                   ELSE LET h == FirstOther(o, s, l) IN IF h = 0 THEN o ELSE [o EXCEPT ![h] = @ \ {s}]
+AcctRx(o, x) ==
+    IF "nums" \notin DOMAIN x THEN o
+    ELSE IF x.cls = "srtla_ack" THEN FoldLeft(LAMBDA oo, s : AckOne(oo, x.l, s), o, x.nums)
+    ELSE IF x.cls = "srt_ack" /\ x.nums # <<>> THEN [l \in Links |-> {s \in o[l] : s > x.nums[1]}]
+    ELSE IF x.cls = "reg3" THEN [o EXCEPT ![x.l] = {}]        \* registration clears the link's accounting
+    ELSE o
+Acct(r) ==
+    LET w  == FoldLeft(LAMBDA acc, f : AcctWire(r, acc, f), [o |-> out, p |-> port, ok |-> TRUE], r.wire)
+        o2 == FoldLeft(LAMBDA o, x : AcctRx(o, x), w.o, r.rx)
+    IN /\ "C02" \in Check => w.ok
+       /\ out' = [l \in Links |-> IF l \in Removed(r) \/ (r.ev = "SendFail" /\ r.done /\ r.l = l) THEN {} ELSE o2[l]]
+
 (* ---- C07 on the wire ---- *)
 Reg1s(r)   == SelectSeq(r.wire, LAMBDA f : f.cls = "reg1")
 Reg2Ans(r) == \E j \in 1..Len(r.rx) : r.rx[j].cls = "reg2" /\ r.rx[j].l = reg1L
@@ -291,6 +322,7 @@ LinksOK(r) ==
     /\ downLo' = Gone([l \in Links |-> IF l <= n /\ Torn(r, l) THEN r.t - r.d ELSE downLo[l]], -1, r)
     /\ everUp' = Gone([l \in Links |-> IF l <= n THEN (everUp[l] \/ Conn1(r, l) # -1) ELSE everUp[l]], FALSE, r)
     /\ ReloadChecks(r) /\ ReloadNext(r)
+    /\ Acct(r)
     /\ est' = (est \/ \E j \in 1..Len(r.rx) : r.rx[j].cls = "reg3")
 
 TraceInit ==
@@ -303,6 +335,7 @@ TraceInit ==
     /\ reg1L = 0 /\ reg1T = -1 /\ ansT = -1 /\ seen2 = {} /\ amn = [l \in Links |-> -1]
     /\ failing = [l \in Links |-> FALSE]
     /\ listed = {} /\ pendL = {} /\ applyT = -1 /\ refT = -1 /\ lastApply = 0
+    /\ out = [l \in Links |-> {}]
 
 TraceNext ==
     /\ i <= Len(Rec)
